@@ -49,7 +49,23 @@ func (k *KnownFinding) matches(prop, id string) bool {
 
 func hasProp(ps []string, p string) bool {
 	for _, x := range ps {
+		if x == p || x == p+"!" {
+			return true
+		}
+	}
+	return false
+}
+
+// thoroughOnly: the clause is tagged "<prop>!" — proved in the thorough tier
+// only (it is still assumed at call sites in the quick tier).
+func thoroughOnly(ps []string, p string) bool {
+	for _, x := range ps {
 		if x == p {
+			return false
+		}
+	}
+	for _, x := range ps {
+		if x == p+"!" {
 			return true
 		}
 	}
@@ -67,6 +83,11 @@ func contractServes(ct *Contract, p string) bool {
 		}
 	}
 	for _, c := range ct.Ensures {
+		if hasProp(c.Props, p) {
+			return true
+		}
+	}
+	for _, c := range ct.Maintain {
 		if hasProp(c.Props, p) {
 			return true
 		}
@@ -137,6 +158,7 @@ func cmdCheck(args []string) int {
 	usedExt := map[string]bool{}
 	usedCt := map[string]bool{}
 	var assumedCts []string
+	deferred := map[string]int{}
 	var unverified []string
 	for _, ct := range e.allCts {
 		f := e.ctFunc[ct]
@@ -190,6 +212,10 @@ func cmdCheck(args []string) int {
 		}
 		for _, o := range fv.obls {
 			if o.Kind == "cover" || hasProp(o.Props, *prop) {
+				if *tier != "thorough" && o.Kind != "cover" && thoroughOnly(o.Props, *prop) {
+					deferred[o.Func+"#"+strings.SplitN(strings.SplitN(o.ID, "#", 2)[1], "@", 2)[0]]++
+					continue
+				}
 				obls = append(obls, o)
 				rep.Obligations++
 			}
@@ -323,6 +349,9 @@ func cmdCheck(args []string) int {
 				assumed = append(assumed, "assumed (unverified) contract on "+k+": "+c2.Modes["assumed"])
 			}
 		}
+	}
+	for k, n := range deferred {
+		assumed = append(assumed, fmt.Sprintf("clause %s: %d obligations are proved in the thorough tier only (assumed at call sites in this quick run)", k, n))
 	}
 	for _, a := range unverified {
 		assumed = append(assumed, "NOT VERIFIED (sites inside are not covered by this check): "+a)
